@@ -20,7 +20,15 @@ type dirEnt struct {
 
 func IllegalName(name nfstypes.Filename3) bool {
 	n := name
-	return n == "." || n == ".."
+	if n == "." || n == ".." || n == "" {
+		return true
+	}
+	for i := 0; i < len(n); i++ {
+		if n[i] == '/' || n[i] == 0 {
+			return true
+		}
+	}
+	return false
 }
 
 func ScanName(dip *inode.Inode, op *fstxn.FsTxn, name nfstypes.Filename3) (common.Inum, uint64) {
